@@ -318,6 +318,16 @@ def R4_formula(ctx, rid="C07.R4"):
                     ok = got.equals(Ratio(Poly.sym("a")) + Ratio(Poly.sym("b")))
                     inner = [c for c in calls_in(folds[0][2][0]) if itm(c[1], "map")]
                     ok = ok and len(inner) == 1 and inner[0][2][0] == ("call", "std::slice::<impl [T]>::iter", (("field", ("variant", ("arg", 1), "Combined"), "0"),))
+                    # each inner rate is asked the same question with the same arguments (not its sibling method)
+                    if ok and inner[0][2][1][0] == "closure" and inner[0][2][1][1] in F.bodies:
+                        mcl = inner[0][2][1]
+                        mrt = nosite(deep_strip(Terms(F.bodies[mcl[1]]).return_term()))
+                        mrt = rewrite(mrt, lambda y: nosite(deep_strip(mcl[2][int(y[2])])) if y[0] == "field" and y[1] == ("arg", 1) and str(y[2]).isdigit() and int(y[2]) < len(mcl[2]) else None)
+                        want_rec = ("call", NR + method, (("arg", 2),) + tuple(("arg", i_) for i_ in range(2, nb.argc + 1)))
+                        ok = unmut(mrt) == want_rec
+                        if not ok:
+                            ctx.bad("%s:Combined:recursion" % method, "an inner rate of a Combined rate is asked %s instead of %s with the same arguments" % (short(mrt)[:140], method), nb.where())
+                            continue
                 ctx.check(ok, "%s:Combined" % method, "Combined is not a sum from ZERO over all inner rates: %s" % short(r.ret)[:200], nb.where())
     # ---- aggregation folds
     ab = F.need(M + "cost::cost_aggregation::CostAggregation::agg_iter")
